@@ -1,4 +1,4 @@
 ---------------------------- MODULE MC_JsonMachine ----------------------------
 EXTENDS JsonMachine, JsonAlphabets
-\* the input phase only matters through txt: two ways of spelling the same text are the same parse
+\* TLC-only: the alphabets for the configurations of JsonMachine (MC_JsonMachine_*.cfg)
 =============================================================================
